@@ -19,6 +19,11 @@ func (core *JApiCore) processInclude(keyword *scanner.Lexeme) *jerr.JApiError {
 	// This directive shouldn't be among core.directives, because we simply
 	// "paste" included file content inside current file.
 
+	// The INCLUDE keyword finishes the previous directive like any other keyword.
+	if je := core.processCurrentDirective(); je != nil {
+		return je
+	}
+
 	path, je := core.getIncludedFilePath(keyword)
 	if je != nil {
 		return je
